@@ -19,6 +19,7 @@ spurious count.
 
 | clause | theorem |
 |---|---|
+| **the property in one statement**, by induction over any history of operations: valid state, nothing reachable freed, untouched handles observe the same tree | `persistence` (Persistence.lean: `reachable_live`, `make_mut_never_mutates_shared`, `observation_stable`) |
 | no reference-count update is lost (copy) | `rc_invariant_copy` |
 | … (edit: make_mut / clone / inline promotion along any visited set) | `rc_invariant_edit` (from `editRef_ok`) |
 | no shared node is written without exclusive ownership | `writes_exclusive`: the in-place branch of `make_mut` is taken only for a cell whose single reference is the one being edited — no other handle, no cell links to it; `make_mut_result`: otherwise a fresh cell with count 1 and the same children/payload is written instead and the original keeps all its other owners |
